@@ -6,10 +6,11 @@ import CnvVerif.Driver.Tile
 import CnvVerif.Driver.Center
 import CnvVerif.Driver.Fix
 import CnvVerif.Driver.Access
+import CnvVerif.Driver.Genes
 open Lean CnvVerif.Drv
 
 def handlers : List (String → Json → Option Json → R (Option Json)) :=
-  [handleInterval, handleCall, handleSegFilter, handleTile, handleCenter, handleFix, handleAccess]
+  [handleInterval, handleCall, handleSegFilter, handleTile, handleCenter, handleFix, handleAccess, Genes.handleGenes]
 
 def dispatch (op : String) (inp : Json) (impl : Option Json) : R Json := do
   for h in handlers do
